@@ -124,7 +124,11 @@ class SymRandom(types.ModuleType):
         e = self._eng()
         return e.sym_int(self._fresh("randint"), a, b)
 
+    fixed_shuffle = False
+
     def shuffle(self, lst):
+        if self.fixed_shuffle:
+            return
         e = self._eng()
         n = len(lst)
         items = list(lst)
@@ -182,7 +186,11 @@ class ScriptedRandom(types.ModuleType):
     def randint(self, a, b):
         return int(self._eng().sym_int(self._fresh("randint")))
 
+    fixed_shuffle = False
+
     def shuffle(self, lst):
+        if self.fixed_shuffle:
+            return
         e = self._eng()
         items = list(lst)
         out = []
